@@ -142,3 +142,29 @@ Fixpoint agree (s : st) (ops : list oop) : bool :=
   end.
 
 Definition check_case (c : case) : bool * bool := (agree st0 (c_ops c), ok_case c).
+
+(* ------------------------------------------------------------------ history-level reference objects (theorems) *)
+
+(* the filtered datastore after a history: an invalid write counts as a delete *)
+Fixpoint ds_of (validate : value -> bool) (d : ds) (h : list input) : ds :=
+  match h with
+  | [] => d
+  | i :: h' => ds_of validate (ds_apply d (i_key i) (vf_filter validate (i_val i))) h'
+  end.
+
+(* the dataplane's view after a run: the fold of everything emitted *)
+Definition view_of (evss : list (list ev)) : view := view_apply_all view0 (concat evss).
+
+(* the profile stage of an endpoint whose ProfileIDs are ids, as programmed from the view (a profile the
+   dataplane was never given has no chain to jump to: nothing can be allowed there) *)
+Definition profile_chain (v : view) (ids : list N) (inbound : bool) : list (list rule) :=
+  map (fun p => match aget p (v_profs v) with
+                | Some r => ref_rules (if inbound then pr_in r else pr_out r)
+                | None => [to_ref deny_rule]
+                end) ids.
+
+(* the endpoint's verdict under the reference semantics; how the tiers are assembled from the view's active
+   policies is left open (tiers_of): the theorems hold for every way of doing it *)
+Definition ep_verdict (s : ipsets) (tiers_of : view -> list PolicyRef.tier) (v : view) (ids : list N) (inbound : bool)
+  (pkt : packet) : verdict :=
+  endpoint_verdict s (tiers_of v) (profile_chain v ids inbound) pkt.
